@@ -496,3 +496,8 @@ def run(ctx: Ctx, rep: Report, tier: str) -> None:
     from .c16 import nested_data_plumbing
 
     nested_data_plumbing(ctx, rep, rid="R19.6")
+    from .c09 import splitter_vocabulary
+
+    sub = Report("C19")
+    splitter_vocabulary(ctx, sub, "R09.5")
+    rep.absorb(sub, "R19.6")
